@@ -22,11 +22,18 @@ def gen_table(rng, name):
     for i in range(n):
         t = rng.choice(TYPES)
         cols.append(Col(f"{'pqrs'[i]}", t, nullable=rng.random() < 0.75))
-    if rng.random() < 0.5:
-        c = [x for x in cols if x.typ == "INT"]
-        if c:
-            c[0].pk = True
-            c[0].nullable = False
+    x = rng.random()
+    ints = [c for c in cols if c.typ == "INT"]
+    if x < 0.4 and ints:
+        ints[0].pk = True
+        ints[0].nullable = False
+    elif x < 0.6 and ints:
+        # the key declared by a table constraint, over one or two columns
+        keys = ints[:rng.choice([1, 2])]
+        for c in keys:
+            c.nullable = False
+            c.implied_not_null = True
+        return Table(name, cols, pk_constraint=[c.name for c in keys])
     return Table(name, cols)
 
 
